@@ -228,17 +228,24 @@ Definition item_fault (g : list line) : option (Z * Z * bool) :=
   | _ => stray_scan 0 g
   end.
 
-(* what an item that starts at line `start` of `file` contributes to stderr *)
+(* what an item that starts at line `start` of `file` contributes to stderr: an include item
+   first everything the included file produces (with the include's location added to the
+   chain), then at most one message of the item's own *)
+Definition inc_msgs (file : Z) (chain : list loc) (start : Z) (g : list line) : list msg :=
+  match g with
+  | LInclude name body :: _ => s_msgs (parse_file name (chain ++ [(file, start)]) body)
+  | _ => []
+  end.
+
+Definition own_msgs (file : Z) (chain : list loc) (start : Z) (g : list line) : list msg :=
+  match item_fault g with
+  | None => []
+  | Some (off, k, whole) =>
+      [mk_msg chain file (start + off) k (if whole then Some (start, start + off) else None)]
+  end.
+
 Definition item_msgs (file : Z) (chain : list loc) (start : Z) (g : list line) : list msg :=
-  (match g with
-   | LInclude name body :: _ => s_msgs (parse_file name (chain ++ [(file, start)]) body)
-   | _ => []
-   end)
-  ++ match item_fault g with
-     | None => []
-     | Some (off, k, whole) =>
-         [mk_msg chain file (start + off) k (if whole then Some (start, start + off) else None)]
-     end.
+  inc_msgs file chain start g ++ own_msgs file chain start g.
 
 Fixpoint expected (file : Z) (chain : list loc) (start : Z) (gs : list (list line)) : list msg :=
   match gs with
